@@ -142,6 +142,9 @@ type c04cfg struct {
 	senders int
 	rounds  int
 	focus   uint16 // 0: global search; otherwise only deliveries to this party branch
+	same    bool   // all senders broadcast byte-identical payloads
+	zero    bool   // identifiers 0..n-1
+	t       int    // key-generation threshold below n (0: n)
 }
 
 func (k c04cfg) String() string {
@@ -151,6 +154,15 @@ func (k c04cfg) String() string {
 	}
 	if k.wide {
 		op += "wide-"
+	}
+	if k.same {
+		op += "same-"
+	}
+	if k.zero {
+		op += "zero-"
+	}
+	if k.t != 0 {
+		op += fmt.Sprintf("t%d-", k.t)
 	}
 	return fmt.Sprintf("%sN%d-%dx%d-f%d", op, k.n, k.senders, k.rounds, k.focus)
 }
@@ -172,7 +184,18 @@ func c04case(k c04cfg) harness.Case {
 				ids[1] = 256
 			}
 		}
-		cfg := rcfg{Sign: k.sign, Participants: ids, Honest: ids, All: ids}
+		if k.zero {
+			for i := range ids {
+				ids[i] = uint16(i)
+			}
+		}
+		tagOf := func(id uint16) byte {
+			if k.same {
+				return 's'
+			}
+			return byte(id)
+		}
+		cfg := rcfg{Sign: k.sign, Participants: ids, Honest: ids, All: ids, T: k.t}
 		var init []Event
 		type bc struct {
 			s uint16
@@ -181,7 +204,7 @@ func c04case(k c04cfg) harness.Case {
 		var bcs []bc
 		for si := 0; si < k.senders; si++ {
 			for r := 1; r <= k.rounds; r++ {
-				init = append(init, Event{Kind: 'S', From: ids[si], Bcast: true, Data: string(bcastBody(uint8(r), byte(ids[si])))})
+				init = append(init, Event{Kind: 'S', From: ids[si], Bcast: true, Data: string(bcastBody(uint8(r), tagOf(ids[si])))})
 				bcs = append(bcs, bc{ids[si], uint8(r)})
 			}
 		}
@@ -245,7 +268,7 @@ func c04case(k c04cfg) harness.Case {
 			terminals++
 			c.Add("quiescent_states", 1)
 			for _, b := range bcs {
-				body := string(bcastBody(b.r, byte(b.s)))
+				body := string(bcastBody(b.r, tagOf(b.s)))
 				for _, id := range ids {
 					if id == b.s {
 						continue
@@ -296,6 +319,7 @@ type byzcfg struct {
 	aboutSelf bool // acknowledgements about the recipient itself
 	honestBc  bool // honest party 1 broadcasts too
 	budget    int
+	t         int // key-generation threshold below n (0: n)
 }
 
 func (b byzcfg) rc() rcfg {
@@ -305,7 +329,7 @@ func (b byzcfg) rc() rcfg {
 	if b.outsider != 0 {
 		all = append(all, b.outsider)
 	}
-	return rcfg{Sign: b.sign, Participants: parts, Honest: b.honest, All: all}
+	return rcfg{Sign: b.sign, Participants: parts, Honest: b.honest, All: all, T: b.t}
 }
 
 func (b byzcfg) actions() []Event {
@@ -511,7 +535,10 @@ func gen(c *harness.C) []harness.Case {
 		c.Note("rule", "explicit-state DFS over all delivery orders of in-flight messages of real Schemes (any-order network), dedup on canonical dump of receivers' private state + in-flight multiset + hand-overs; f0 = global exact search, fK = only deliveries to party K branch (others eager). distinct_nontrivial = distinct quiescent histories")
 		global := []c04cfg{{sign: false, n: 2, senders: 1, rounds: 1}, {sign: false, n: 2, senders: 2, rounds: 1}, {sign: false, n: 2, senders: 1, rounds: 2}, {sign: false, n: 2, senders: 2, rounds: 2}, {sign: false, n: 3, senders: 1, rounds: 1}, {sign: false, n: 3, senders: 2, rounds: 1}, {sign: false, n: 3, senders: 1, rounds: 2}, {sign: false, n: 4, senders: 1, rounds: 1},
 			{sign: true, n: 2, senders: 2, rounds: 2}, {sign: true, n: 3, senders: 1, rounds: 1}, {sign: true, n: 3, senders: 2, rounds: 1},
-			{wide: true, n: 3, senders: 2, rounds: 1}, {wide: true, n: 2, senders: 2, rounds: 2}}
+			{wide: true, n: 3, senders: 2, rounds: 1}, {wide: true, n: 2, senders: 2, rounds: 2},
+			{same: true, n: 3, senders: 3, rounds: 1}, {same: true, n: 3, senders: 2, rounds: 1}, {same: true, sign: true, n: 3, senders: 2, rounds: 1},
+			{zero: true, n: 3, senders: 2, rounds: 1}, {zero: true, n: 2, senders: 2, rounds: 1}, {zero: true, sign: true, n: 3, senders: 1, rounds: 1},
+			{t: 2, n: 3, senders: 2, rounds: 1}}
 		if c.Thorough() {
 			global = append(global, c04cfg{n: 3, senders: 2, rounds: 2}, c04cfg{n: 4, senders: 2, rounds: 1}, c04cfg{n: 4, senders: 1, rounds: 2}, c04cfg{n: 5, senders: 1, rounds: 1}, c04cfg{sign: true, n: 3, senders: 1, rounds: 2}, c04cfg{sign: true, n: 4, senders: 1, rounds: 1}, c04cfg{wide: true, n: 4, senders: 1, rounds: 1})
 		}
@@ -549,6 +576,8 @@ func gen(c *harness.C) []harness.Case {
 				{name: "N3", honest: []uint16{1, 2}, byz: []uint16{3}, outsider: 9, rounds: []uint8{1}, honestBc: true, budget: 4},
 				{name: "N4", honest: []uint16{1, 2, 3}, byz: []uint16{4}, outsider: 9, rounds: []uint8{1}, budget: 4},
 				{name: "N4b2", honest: []uint16{1, 2}, byz: []uint16{3, 4}, rounds: []uint8{1}, budget: 4},
+				{name: "N3t2", honest: []uint16{1, 2}, byz: []uint16{3}, rounds: []uint8{1}, budget: 3, t: 2},
+				{name: "N4t2", honest: []uint16{1, 2, 3}, byz: []uint16{4}, rounds: []uint8{1}, budget: 3, t: 2},
 			}
 		}
 		// the same searches on signing sessions (their participant filter and forward closure are
